@@ -24,6 +24,13 @@ struct SinkBuf : std::streambuf {
   std::streamsize xsputn(const char* p, std::streamsize n) override { out.append(p, size_t(n)); return n; }
 };
 
+// an Arduino Stream over a byte string (all bytes are "already received": read() never has to wait)
+struct ArduinoStreamMock : Stream {
+  std::string s; size_t p = 0; bool ended = false, fault = false;
+  int read() override { if (ended) fault = true; if (p < s.size()) return (unsigned char)s[p++]; ended = true; return -1; }
+  size_t readBytes(char* b, size_t len) override { size_t i = 0; while (i < len && p < s.size()) b[i++] = s[p++]; return i; }
+};
+
 // fmt: 0 compact JSON, 1 pretty JSON, 2 MessagePack
 static size_t ser_buf(int fmt, JsonVariantConst v, void* p, size_t n) {
   return fmt == 0 ? serializeJson(v, p, n) : fmt == 1 ? serializeJsonPretty(v, p, n) : serializeMsgPack(v, p, n);
@@ -232,10 +239,7 @@ static std::string handle(const std::vector<std::string>& a) {
     { CountingReader rd(input, json); RUN("custom", rd); if (rd.fault) res += "custom=FAULT "; }
     { ::String as; as.limitCapacityTo(size_t(1) << 30);
       if (input.find('\0') == std::string::npos) { as = input.c_str(); RUN("arduinoString", as) } }
-    { struct SM : Stream { std::string s; size_t p = 0; bool ended = false, fault = false;
-        int read() override { if (ended) fault = true; if (p < s.size()) return (unsigned char)s[p++]; ended = true; return -1; }
-        size_t readBytes(char* b, size_t len) override { size_t i = 0; while (i < len && p < s.size()) b[i++] = s[p++]; return i; } } sm;
-      sm.s = input; RUN("arduinoStream", sm) }
+    { ArduinoStreamMock sm; sm.s = input; RUN("arduinoStream", sm) }
     { // sized flash pointer (mock: address shifted by 42)
       const __FlashStringHelper* fp = reinterpret_cast<const __FlashStringHelper*>(convertPtrToFlash(exact));
       RUN("flashsize", fp, n) }
@@ -266,9 +270,11 @@ static std::string handle(const std::vector<std::string>& a) {
     CountingReader rd(input, json);
     ChunkedBuf cb(input, 2 + input.size() % 3);
     std::istream cis(&cb);
+    ArduinoStreamMock sm; sm.s = input;
     for (int k = 0; k < 40; k++) {
-      JsonDocument d1, d2, d3;
+      JsonDocument d1, d2, d3, d4;
       DeserializationError e3 = json ? deserializeJson(d3, cis) : deserializeMsgPack(d3, cis);
+      DeserializationError e4 = json ? deserializeJson(d4, sm) : deserializeMsgPack(d4, sm);
       DeserializationError e1 = json ? deserializeJson(d1, is) : deserializeMsgPack(d1, is);
       DeserializationError e2 = json ? deserializeJson(d2, rd) : deserializeMsgPack(d2, rd);
       long pos1 = is.eof() ? (long)input.size() : (long)is.tellg();
@@ -278,6 +284,8 @@ static std::string handle(const std::vector<std::string>& a) {
         res += "ISTREAM-DIFFERS(" + std::string(codeName(e1)) + "@" + std::to_string(pos1) + ") ";
       if (e3 != e2 || dump(d3.as<JsonVariantConst>()) != dump(d2.as<JsonVariantConst>()) || (!e2 && cb.consumed() != rd.pos))
         res += "BLOCK-ISTREAM-DIFFERS(" + std::string(codeName(e3)) + "@" + std::to_string(cb.consumed()) + ") ";
+      if (e4 != e2 || dump(d4.as<JsonVariantConst>()) != dump(d2.as<JsonVariantConst>()) || (!e2 && sm.p != rd.pos))
+        res += "ARDUINO-STREAM-DIFFERS(" + std::string(codeName(e4)) + "@" + std::to_string(sm.p) + ") ";
       if (e2) break;
     }
     return res;
